@@ -50,6 +50,7 @@ type histStep struct {
 	OffsetNs   int64                 `json:"offset_ns"`         // sub-second part of the scan instant
 	Restart    bool                  `json:"restart,omitempty"` // a new Controller (and provider) over the same world
 	SleepMs    int64                 `json:"sleep_ms,omitempty"` // REAL time that passes before this scan (things stamped with the real clock)
+	NoShift    bool                  `json:"no_shift,omitempty"` // time is the real clock only: stored timestamps are left as they are (values keep their identity from scan to scan)
 	Lag        []string              `json:"lag,omitempty"`     // nodes whose listed copy is NOT refreshed from the API server ("*": all)
 	Edits      []hEdit               `json:"edits,omitempty"`
 	Oracle     map[string]stepOracle `json:"oracle,omitempty"` // by node group name; absent = no failure
@@ -536,7 +537,11 @@ func runHistory(hs *histSpec) ([]histScan, error) {
 		}
 		baseSec := time.Now().Unix()
 		// virtual time: the stored timestamps age by AdvanceSec, whatever the real clock did meanwhile
-		h.shift(st.AdvanceSec-(baseSec-prevBase), baseSec)
+		if st.NoShift {
+			st.AdvanceSec = baseSec - prevBase
+		} else {
+			h.shift(st.AdvanceSec-(baseSec-prevBase), baseSec)
+		}
 		h.vnow += float64(st.AdvanceSec)
 		prevBase = baseSec
 		if st.Restart {
